@@ -248,7 +248,8 @@ func emitE2ECase(env *e2eEnv, run *e2eRun, o e2eCaseOpts) string {
 		if k == "EPerm" { // a permission error names the removed field in its message, not in "path"
 			path = clist([]string{"PName " + cstr(strings.TrimSuffix(e.Message, " access disallowed"))})
 		}
-		errs = append(errs, "{| oe_kind := "+k+"; oe_path := "+path+"; oe_names_service := "+cbool(names)+" |}")
+		svcURL, _ := e.Extensions["serviceUrl"].(string)
+		errs = append(errs, "{| oe_kind := "+k+"; oe_path := "+path+"; oe_names_service := "+cbool(names)+"; oe_service := "+cstr(svcURL)+" |}")
 	}
 	fuel := o.fuel
 	if fuel == 0 {
